@@ -1,5 +1,503 @@
-"""stub"""
+"""C01 — decay tables are exactly what the file states (DESIGN.md §4 C01)."""
+from __future__ import annotations
+
+import ast
+import re
+
+from ..core import guards
+from ..core import pyfacts as pf
+from ..core.defuse import is_identity
+from ..core.larkfacts import grammar_facts, symbols_str
+from ..core.match import phi_alts, txt
+from ..core.rx import Rx, includes, witness_not_in
 from ..core.source import AnchorMissing
-PROP="C01"
+from .common import (DEC, DECGRAMMAR, accessor_sig, ckey, enclosing, fn, method_calls, post_replacement_grammar,
+                     returns, single_def, stmt_of, where)
+
+PROP = "C01"
+FILES = [DEC, DECGRAMMAR]
+EXPLANATION = (
+    "C01.1 child-word shapes of decay/decayline/value/particle/photos/model/model_options computed from Lark's "
+    "compiled grammar; C01.2 regular-language checks of LABEL, SIGNED_NUMBER, INT (alphabet, inclusion in the "
+    "reference numeric language and in what float()/int() accept) with witness strings; C01.3 flow signatures of "
+    "the decay-line accessors type-checked against every child word; C01.4 the PHOTOS prefix is unreachable for "
+    "lines without the flag and the four reported fields are the four accessors of the same line; C01.5 parse() runs "
+    "lookup, alias replacement over all tables, parameter replacement over all tables, copies, conjugates in this "
+    "order on every normal path; C01.6 duplicate removal runs from the end and removes count-1 per repeated mother; "
+    "C01.7 visitor/transformer callbacks name existing grammar rules.")
+NOT_DECIDED = ["that Lark's LALR parser builds the tree the grammar denotes (trusted)",
+               "float equality of literal and reported number beyond 'it is float(token)'",
+               "every published model name (decided under C06)"]
+
+G = DECGRAMMAR
+
+
 def run(ctx, ss):
-    raise AnchorMissing("rules not built yet")
+    for r, f in (("C01.1", c01_1), ("C01.2", c01_2), ("C01.3", c01_3), ("C01.4", c01_4),
+                 ("C01.5", c01_5), ("C01.6", c01_6), ("C01.7", c01_7), ("C01.8", c01_8)):
+        ctx.guard(r, f, ss)
+
+
+# ---------------------------------------------------------------------------------------
+SHAPES = {
+    # tree name: (regex over the word string, witnesses that must exist, must be unbounded?)
+    "decay": (r"T:particle( T:decayline)*", ["T:particle", "T:particle T:decayline", "T:particle T:decayline T:decayline"], True),
+    "decayline": (r"T:value( T:particle)*( T:photos)? T:model",
+                  ["T:value T:model", "T:value T:particle T:model", "T:value T:photos T:model",
+                   "T:value T:particle T:particle T:photos T:model"], True),
+    "value": (r"K:SIGNED_NUMBER", ["K:SIGNED_NUMBER"], False),
+    "particle": (r"K:LABEL", ["K:LABEL"], False),
+    "photos": (r"ε", ["ε"], False),
+    "model": (r"(K:MODEL_NAME( T:model_options)?|T:model_label)", ["K:MODEL_NAME", "K:MODEL_NAME T:model_options"], False),
+    "model_options": (r"(ε|(T:value|K:LABEL)( (T:value|K:LABEL))*)", ["K:LABEL", "T:value", "K:LABEL T:value", "T:value K:LABEL"], True),
+}
+
+
+def c01_1(ctx, ss):
+    gf = grammar_facts(ss, G)
+    ctx.count("grammar_rules", len(gf.rule_defs))
+    for name, (rx, wit, unb) in SHAPES.items():
+        words = set(gf.word_strs(name))
+        bad = sorted(w for w in words if not re.fullmatch(rx, w))
+        missing = [w for w in wit if w not in words]
+        k = f"{G}:{name}"
+        if bad:
+            ctx.violation("C01.1", k, f"src/decaylanguage/{G}", f"rule `{name}` can have children [{bad[0]}], outside the shape {rx}", len(words))
+        elif missing:
+            ctx.violation("C01.1", k, f"src/decaylanguage/{G}", f"rule `{name}` can no longer have children [{missing[0]}] (shape {rx})", len(words))
+        elif unb and not gf.unbounded(name):
+            ctx.violation("C01.1", k, f"src/decaylanguage/{G}", f"rule `{name}` no longer repeats without bound", len(words))
+        else:
+            ctx.holds("C01.1", k, f"src/decaylanguage/{G}", f"child words of `{name}` ⊆ {rx}, witnesses present ({len(words)} words ≤ len {gf.bound})", len(words))
+    for root in ("model", "value", "photos"):
+        below = gf.reachable_trees(root)
+        if "particle" in below:
+            ctx.violation("C01.1", f"{G}:particle-below-{root}", f"src/decaylanguage/{G}",
+                          f"a `particle` node can occur below `{root}`: find_data('particle') of a decay line would report it as a daughter")
+        else:
+            ctx.holds("C01.1", f"{G}:particle-below-{root}", f"src/decaylanguage/{G}", f"no `particle` node below `{root}`", len(below) + 1)
+    for a, b in (("decayline", "decayline"), ("decay", "decay"), ("decay", "model_alias")):
+        below = gf.reachable_trees(a)
+        if b in below:
+            ctx.violation("C01.1", f"{G}:{b}-below-{a}", f"src/decaylanguage/{G}", f"`{b}` can nest below `{a}`")
+        else:
+            ctx.holds("C01.1", f"{G}:{b}-below-{a}", f"src/decaylanguage/{G}", f"`{b}` never nests below `{a}`", len(below) + 1)
+
+
+REF_NUM = r"[+-]?(?:[0-9]+(?:\.[0-9]*)?|\.[0-9]+)(?:[eE][+-]?[0-9]+)?"
+FLOAT_OK = r"[+-]?(?:[0-9]+\.?[0-9]*|\.[0-9]+)(?:[eE][+-]?[0-9]+)?"
+INT_OK = r"[+-]?[0-9]+"
+LABEL_CHARS = set("abcdefghijklmnopqrstuvwxyzABCDEFGHIJKLMNOPQRSTUVWXYZ0123456789/-+*_().'~")
+
+
+def c01_2(ctx, ss):
+    gf = grammar_facts(ss, G)
+    w = f"src/decaylanguage/{G}"
+    lab = Rx(gf.term_regex("LABEL"))
+    cs = lab.charset()
+    miss = sorted(LABEL_CHARS - cs)
+    if miss:
+        ctx.violation("C01.2", f"{G}:LABEL:alphabet", w, f"LABEL no longer accepts the character(s) {miss}: witness label {miss[0]!r}", lab.n_states())
+    else:
+        ctx.holds("C01.2", f"{G}:LABEL:alphabet", w, f"LABEL alphabet ⊇ the {len(LABEL_CHARS)} listed characters", lab.n_states())
+    # closure: every non-empty string over the listed alphabet is a LABEL
+    cls = "[" + "".join(re.escape(c) for c in sorted(LABEL_CHARS)) + "]+"
+    wit = includes(lab, Rx(cls))
+    if wit is not None:
+        ctx.violation("C01.2", f"{G}:LABEL:closure", w, f"LABEL is not closed over its alphabet: {wit!r} is not a LABEL", lab.n_states())
+    else:
+        ctx.holds("C01.2", f"{G}:LABEL:closure", w, "every non-empty string over the listed alphabet is one LABEL", lab.n_states())
+    sn = Rx(gf.term_regex("SIGNED_NUMBER"))
+    wit = includes(sn, Rx(REF_NUM))
+    if wit is not None:
+        ctx.violation("C01.2", f"{G}:SIGNED_NUMBER:forms", w, f"numeric literal {wit!r} is no longer a SIGNED_NUMBER", sn.n_states())
+    else:
+        ctx.holds("C01.2", f"{G}:SIGNED_NUMBER:forms", w, "L(SIGNED_NUMBER) ⊇ [+-]?(d+(.d*)?|.d+)([eE][+-]?d+)? (covers 1, 1., .5, -0.8, +3, 20.e12, 2E-4)", sn.n_states())
+    wit = includes(Rx(FLOAT_OK), sn)
+    if wit is not None:
+        ctx.violation("C01.2", f"{G}:SIGNED_NUMBER:float", w, f"SIGNED_NUMBER accepts {wit!r}, which float() rejects", sn.n_states())
+    else:
+        ctx.holds("C01.2", f"{G}:SIGNED_NUMBER:float", w, "every SIGNED_NUMBER is accepted by float()", sn.n_states())
+    it = Rx(gf.term_regex("INT"))
+    wit = includes(Rx(INT_OK), it)
+    if wit is not None or it.is_empty():
+        ctx.violation("C01.2", f"{G}:INT:int", w, f"INT accepts {wit!r}, which int() rejects", it.n_states())
+    else:
+        ctx.holds("C01.2", f"{G}:INT:int", w, "every INT is accepted by int()", it.n_states())
+    ctx.count("dfa_states", lab.n_states() + sn.n_states() + it.n_states())
+
+
+SPEC3 = {
+    # function: (param, tree, expected flow signature, post-replacement view?)
+    "get_decay_mother_name": ("decay_tree", "decay", "decay/0:particle/0:LABEL", False),
+    "get_branching_fraction": ("decay_mode", "decayline", "float(decayline/0:value/0:SIGNED_NUMBER)", False),
+    "get_final_state_particle_names": ("decay_mode", "decayline", "[decayline//particle/0:LABEL]", False),
+    "get_final_state_particles": ("decay_mode", "decayline", "[decayline//particle]", False),
+    "get_model_name": ("decay_mode", "decayline", "decayline//model/0:MODEL_NAME", True),
+    "get_model_parameters": ("decay_mode", "decayline",
+                             "('' | [(decayline//model_options/*:LABEL | decayline//model_options/*:value/0:SIGNED_NUMBER)])", True),
+    "get_decays": ("parsed_file", "start", "[start//decay]", False),
+}
+
+
+def c01_3(ctx, ss):
+    gf = grammar_facts(ss, G)
+    gpost = post_replacement_grammar(gf)
+    for q, (param, tree, want, post) in SPEC3.items():
+        sig, errs, unk, tt = accessor_sig(ss, gpost if post else gf, DEC, q, param, tree)
+        ff = pf.func(ss, DEC, q)
+        k = f"{DEC}:{q}"
+        if errs:
+            ctx.violation("C01.3", k + " :: type", where(ff, ff.node), f"{q}: {errs[0]}", len(tt.find_data_literals) + 1)
+            continue
+        if sig == want:
+            ctx.holds("C01.3", k, where(ff, ff.node), f"{q} = {sig}", len(tt.find_data_literals) + 2)
+        elif "?" in sig or unk:
+            ctx.undecided("C01.3", k, where(ff, ff.node), f"{q}: flow signature not fully understood: {sig} {unk[:2]}")
+        else:
+            ctx.violation("C01.3", k, where(ff, ff.node), f"{q} reads `{sig}`, the property needs `{want}`", 2)
+    ctx.count("accessors", len(SPEC3))
+
+
+def _photos_test(flow, e, param="decay_mode"):
+    """Is e (expanded) a test of 'this line has a photos node'? -> True if positive form."""
+    t = txt(e)
+    if "find_data('photos')" not in t:
+        return None
+    calls = [c for c in ast.walk(e) if isinstance(c, ast.Call) and isinstance(c.func, ast.Attribute) and c.func.attr == "find_data"]
+    if len(calls) != 1 or not is_identity(calls[0].func.value, param):
+        return None
+    # accepted positive forms: list(X) / tuple(X) / any(X) / len(list(X)) > 0 / len(...) != 0 / bool(...)
+    x = e
+    if isinstance(x, ast.Call) and isinstance(x.func, ast.Name) and x.func.id in ("list", "tuple", "any", "bool"):
+        return True
+    if isinstance(x, ast.Compare) and len(x.ops) == 1 and isinstance(x.left, ast.Call) and txt(x.left.func) == "len" \
+            and isinstance(x.comparators[0], ast.Constant):
+        k, op = x.comparators[0].value, type(x.ops[0])
+        if (op is ast.Gt and k == 0) or (op is ast.GtE and k == 1) or (op is ast.NotEq and k == 0) or (op is ast.Eq and k == 1):
+            return True
+        if (op is ast.Eq and k == 0) or (op is ast.Lt and k == 1):
+            return False
+    return None
+
+
+def c01_4(ctx, ss):
+    ff, flow = fn(ss, DEC, "DecFileParser._decay_mode_details")
+    ctx.count("functions")
+    # statements that put "PHOTOS" into the model string
+    sites = []
+    for st in pf.iter_stmts(ff.node.body):
+        if isinstance(st, ast.Expr) and isinstance(st.value, ast.Constant):
+            continue   # docstring
+        if isinstance(st, (ast.Assign, ast.AugAssign, ast.Return, ast.Expr)):
+            for c in ast.walk(st):
+                if isinstance(c, ast.Constant) and isinstance(c.value, str) and "PHOTOS" in c.value:
+                    sites.append(st)
+                    break
+    if not sites:
+        ctx.violation("C01.4", ckey(ff, None, "no-prefix"), where(ff, ff.node), "the PHOTOS flag of a decay line is never reported")
+        return
+
+    def atom_noflag(e):
+        r = _photos_test(flow, e)
+        return None if r is None else (not r)
+
+    def atom_flag_and_display(e):
+        r = _photos_test(flow, e)
+        if r is not None:
+            return r
+        if isinstance(e, ast.Name) and e.id == "display_photos_keyword":
+            return True
+        return None
+
+    for st in sites:
+        conds = [c for c in guards.path_conditions(ff.node, st) if c[0] in ("if", "while")]
+        k = ckey(ff, st)
+        inline_ok = None
+        if not conds:
+            # conditional expression form: model = ("PHOTOS " + m) if test else m
+            ife = [x for x in ast.walk(st) if isinstance(x, ast.IfExp)]
+            if ife:
+                t = flow.expand(ife[0].test)
+                v = guards.k3(t, atom_noflag)
+                body_has = any(isinstance(c, ast.Constant) and isinstance(c.value, str) and "PHOTOS" in c.value for c in ast.walk(ife[0].body))
+                inline_ok = (v is False and body_has) or (v is True and not body_has)
+        r = guards.reachable_under(conds, atom_noflag, flow) if inline_ok is None else (False if inline_ok else True)
+        if r is False:
+            ctx.holds("C01.4", k + " :: noflag", where(ff, st), "assuming the line has no photos node, the PHOTOS prefix is unreachable", len(conds) + 1)
+        else:
+            ctx.violation("C01.4", k + " :: noflag", where(ff, st), "the PHOTOS prefix can be reported for a decay line that does not carry the flag")
+        if inline_ok is None:
+            r2 = guards.reachable_under(conds, atom_flag_and_display, flow)
+            if r2 is True:
+                ctx.holds("C01.4", k + " :: flag", where(ff, st), "with the flag present and display on, the prefix is added", len(conds) + 1)
+            else:
+                ctx.violation("C01.4", k + " :: flag", where(ff, st), "the PHOTOS prefix additionally depends on something other than the line's flag and the display option")
+    # the four fields
+    rets = returns(ff)
+    if len(rets) != 1:
+        raise AnchorMissing("_decay_mode_details: expected one return")
+    rv = rets[0].value
+    fields = {}
+    if isinstance(rv, ast.Call) and not rv.args:
+        fields = {kw.arg: kw.value for kw in rv.keywords}
+    elif isinstance(rv, ast.Dict):
+        fields = {k.value: v for k, v in zip(rv.keys, rv.values) if isinstance(k, ast.Constant)}
+    else:
+        raise AnchorMissing("_decay_mode_details: return is neither a keyword call nor a dict literal")
+    want = {"bf": "get_branching_fraction", "fs": "get_final_state_particle_names",
+            "model": "get_model_name", "model_params": "get_model_parameters"}
+    if set(fields) != set(want):
+        ctx.violation("C01.4", ckey(ff, rets[0], "fields"), where(ff, rets[0]), f"reported fields are {sorted(fields)}, expected {sorted(want)}")
+        return
+    for name, acc in want.items():
+        e = flow.expand(fields[name])
+        alts_ = phi_alts(e)
+        ok = True
+        for a in alts_:
+            core = a
+            if isinstance(core, ast.BinOp) and isinstance(core.op, ast.Add) and isinstance(core.left, ast.Constant) and name == "model":
+                core = core.right
+            if isinstance(core, ast.IfExp) and name == "model":
+                core = core.orelse
+            if not (isinstance(core, ast.Call) and txt(core.func) == acc and len(core.args) == 1 and not core.keywords
+                    and is_identity(core.args[0], "decay_mode")):
+                ok = False
+        kk = ckey(ff, rets[0], f"field:{name}")
+        if ok:
+            ctx.holds("C01.4", kk, where(ff, rets[0]), f"field `{name}` = {acc}(decay_mode)", len(alts_))
+        else:
+            ctx.violation("C01.4", kk, where(ff, rets[0]), f"field `{name}` is `{txt(e)[:120]}`, not {acc}(<this decay line>)")
+
+
+def _self_attr_store(st, attr):
+    if isinstance(st, (ast.Assign, ast.AnnAssign)):
+        ts = st.targets if isinstance(st, ast.Assign) else [st.target]
+        for t in ts:
+            if isinstance(t, ast.Attribute) and t.attr == attr and isinstance(t.value, ast.Name) and t.value.id == "self":
+                return True
+    return False
+
+
+def c01_5(ctx, ss):
+    ff, flow = fn(ss, DEC, "DecFileParser.parse")
+    cfg = flow.cfg
+    ctx.count("functions")
+    stmts = list(pf.iter_stmts(ff.node.body))
+    steps = {}
+    multi = {"copy": [], "cc": []}
+    # 1 parse
+    for st in stmts:
+        if _self_attr_store(st, "_parsed_dec_file") and isinstance(st.value, ast.Call) and isinstance(st.value.func, ast.Attribute) \
+                and st.value.func.attr == "parse":
+            steps["parse"] = st
+            a = st.value.args[0] if st.value.args else None
+            if a is None or flow.text(a) != "self._dec_file":
+                ctx.violation("C01.5", ckey(ff, st, "input"), where(ff, st), f"the parser is run on `{flow.text(a) if a is not None else None}`, not on self._dec_file")
+            else:
+                ctx.holds("C01.5", ckey(ff, st, "input"), where(ff, st), "parser.parse(self._dec_file) stored in self._parsed_dec_file", 2)
+    for st in stmts:
+        if isinstance(st, ast.Expr) and isinstance(st.value, ast.Call) and txt(st.value.func) == "self._find_parsed_decays":
+            steps["find"] = st
+        if isinstance(st, ast.Expr) and isinstance(st.value, ast.Call) and txt(st.value.func) == "self._add_decays_to_be_copied":
+            steps["copy"] = st
+            multi["copy"].append(st)
+        if isinstance(st, ast.Expr) and isinstance(st.value, ast.Call) and txt(st.value.func) == "self._add_charge_conjugate_decays":
+            steps["cc"] = st
+            multi["cc"].append(st)
+    # 3 alias replacement over all tables
+    for st in stmts:
+        if _self_attr_store(st, "_parsed_decays") and "DecayModelAliasReplacement" in txt(st.value):
+            steps["alias"] = st
+            v = st.value
+            ok = isinstance(v, ast.ListComp) and len(v.generators) == 1 and not v.generators[0].ifs \
+                and txt(v.generators[0].iter) == "self._parsed_decays"
+            if ok:
+                elt = v.elt
+                ok = isinstance(elt, ast.Call) and isinstance(elt.func, ast.Attribute) and elt.func.attr == "transform" \
+                    and len(elt.args) == 1 and isinstance(elt.args[0], ast.Name) and elt.args[0].id == txt(v.generators[0].target)
+            if ok:
+                ctx.holds("C01.5", ckey(ff, None, "alias-all"), where(ff, st), "alias replacement maps over the whole self._parsed_decays (no filter, no slice)", 3)
+            else:
+                ctx.violation("C01.5", ckey(ff, None, "alias-all"), where(ff, st),
+                              f"alias replacement does not cover every table: `{txt(v)[:140]}`")
+    # 4 parameter replacement loop
+    for st in stmts:
+        if isinstance(st, ast.For) and any("DecayModelParamValueReplacement" in txt(c.func) for c in pf.calls_in(st)):
+            steps["param"] = st
+            okit = flow.text(st.iter) in ("self._parsed_decays",) or txt(st.iter) == "self._parsed_decays"
+            exits = [x for x in ast.walk(st) if isinstance(x, (ast.Break, ast.Continue, ast.Return))]
+            visit = [c for c in pf.calls_in(st) if isinstance(c.func, ast.Attribute) and c.func.attr == "visit"]
+            okv = len(visit) == 1 and len(visit[0].args) == 1 and isinstance(visit[0].args[0], ast.Name) \
+                and isinstance(st.target, ast.Name) and visit[0].args[0].id == st.target.id
+            conds = [c for c in guards.path_conditions(st, stmt_of(ff, visit[0])) if c[0] == "if"] if visit else []
+            if okit and not exits and okv and not conds:
+                ctx.holds("C01.5", ckey(ff, None, "param-all"), where(ff, st), "parameter replacement visits every tree of self._parsed_decays", 4)
+            else:
+                ctx.violation("C01.5", ckey(ff, None, "param-all"), where(ff, st),
+                              f"parameter replacement does not visit every table unconditionally (iter `{txt(st.iter)}`, early exits {len(exits)}, guards {len(conds)})")
+    need = ["parse", "find", "alias", "param", "copy", "cc"]
+    for n in need:
+        if n not in steps:
+            ctx.violation("C01.5", ckey(ff, None, f"step:{n}"), where(ff, ff.node), f"parse() has no `{n}` step any more")
+    if any(n not in steps for n in need):
+        return
+    nodes = {n: cfg.node_of(steps[n]) for n in need}
+    # mandatory steps are on every normal path; order by dominance
+    for n in ("parse", "find", "alias", "param"):
+        if cfg.must_pass({nodes[n]}):
+            ctx.holds("C01.5", ckey(ff, None, f"mpt:{n}"), where(ff, steps[n]), f"every normal path of parse() runs the `{n}` step", 1)
+        else:
+            ctx.violation("C01.5", ckey(ff, None, f"mpt:{n}"), where(ff, steps[n]), f"some normal path of parse() skips the `{n}` step")
+    order = [("parse", "find"), ("find", "alias"), ("alias", "param"), ("param", "copy"), ("param", "cc"), ("copy", "cc")]
+    for a, b in order:
+        if cfg.dominates(nodes[a], nodes[b]) and not cfg.reachable(nodes[b], nodes[a]):
+            ctx.holds("C01.5", ckey(ff, None, f"order:{a}<{b}"), where(ff, steps[b]), f"`{a}` always precedes `{b}`", 2)
+        elif a == "copy" and not cfg.reachable(nodes[b], nodes[a]) and cfg.reachable(nodes[a], nodes[b]):
+            ctx.holds("C01.5", ckey(ff, None, f"order:{a}<{b}"), where(ff, steps[b]), f"`{a}` (conditional) is never after `{b}`", 2)
+        else:
+            ctx.violation("C01.5", ckey(ff, None, f"order:{a}<{b}"), where(ff, steps[b]), f"`{b}` can run before / without `{a}`")
+    for n, sts in multi.items():
+        for st in sts:
+            if st is steps[n]:
+                continue
+            nd = cfg.node_of(st)
+            if not cfg.dominates(nodes["param"], nd):
+                ctx.violation("C01.5", ckey(ff, None, f"order:param<{n}#extra"), where(ff, st),
+                              f"an additional `{n}` step runs before parameter replacement has covered all tables")
+    # _find_parsed_decays = get_decays(self._parsed_dec_file) then the duplicate check
+    gf_, gflow = fn(ss, DEC, "DecFileParser._find_parsed_decays")
+    st_assign = [s for s in pf.iter_stmts(gf_.node.body) if _self_attr_store(s, "_parsed_decays")]
+    st_check = [s for s in pf.iter_stmts(gf_.node.body) if isinstance(s, ast.Expr) and isinstance(s.value, ast.Call)
+                and txt(s.value.func) == "self._check_parsed_decays"]
+    if len(st_assign) == 1 and txt(st_assign[0].value) == "get_decays(self._parsed_dec_file)" and len(st_check) == 1 \
+            and gflow.cfg.dominates(gflow.cfg.node_of(st_assign[0]), gflow.cfg.node_of(st_check[0])) \
+            and gflow.cfg.must_pass({gflow.cfg.node_of(st_check[0])}):
+        ctx.holds("C01.5", ckey(gf_, None, "find"), where(gf_, gf_.node), "_parsed_decays = get_decays(self._parsed_dec_file), then duplicates are checked on every path", 3)
+    else:
+        ctx.violation("C01.5", ckey(gf_, None, "find"), where(gf_, gf_.node), "_find_parsed_decays no longer stores get_decays(self._parsed_dec_file) followed by the duplicate check")
+
+
+def c01_6(ctx, ss):
+    ff, flow = fn(ss, DEC, "DecFileParser._check_parsed_decays")
+    ctx.count("functions")
+    removes = [c for c in pf.calls_in(ff.node) if isinstance(c.func, ast.Attribute) and c.func.attr == "remove"
+               and txt(c.func.value) == "self._parsed_decays"]
+    if not removes:
+        # rebuild idiom?
+        raise AnchorMissing("_check_parsed_decays: no self._parsed_decays.remove(...) found (other de-duplication algorithm)")
+    for c in removes:
+        loops = enclosing(ff, c, (ast.For,))
+        if not loops:
+            raise AnchorMissing("remove() outside a loop")
+        lp = loops[0]
+        it = flow.expand(lp.iter)
+        t = txt(it)
+        k = ckey(ff, lp, "direction")
+        if t in ("reversed(self._parsed_decays)", "self._parsed_decays[::-1]", "reversed(list(self._parsed_decays))", "list(reversed(self._parsed_decays))"):
+            ctx.holds("C01.6", k, where(ff, lp), "removal loop walks the tables from the end, so the first block of a repeated mother is kept", 2)
+        elif t in ("self._parsed_decays", "list(self._parsed_decays)", "tuple(self._parsed_decays)", "self._parsed_decays[:]"):
+            ctx.violation("C01.6", k, where(ff, lp), "removal loop walks the tables from the front: the first block of a repeated mother is dropped (a later one kept)")
+        else:
+            raise AnchorMissing(f"removal loop iterates `{t}`: direction not understood")
+        # removed object is the loop variable, under `name in to_remove` with the matching bookkeeping remove
+        okv = len(c.args) == 1 and isinstance(c.args[0], ast.Name) and isinstance(lp.target, ast.Name) and c.args[0].id == lp.target.id
+        conds = [cd for cd in guards.path_conditions(lp, stmt_of(ff, c)) if cd[0] == "if"]
+        oktest = False
+        lst = None
+        if len(conds) == 1 and conds[0][2]:
+            e = conds[0][1]
+            if isinstance(e, ast.Compare) and len(e.ops) == 1 and isinstance(e.ops[0], ast.In) and isinstance(e.comparators[0], ast.Name):
+                lst = e.comparators[0].id
+                lhs = flow.expand(e.left)
+                oktest = "children[0].children[0].value" in txt(lhs) or "get_decay_mother_name" in txt(lhs)
+        if okv and oktest:
+            ctx.holds("C01.6", ckey(ff, c, "what"), where(ff, c), "removes the visited tree when its mother name is still pending removal", 3)
+        else:
+            ctx.violation("C01.6", ckey(ff, c, "what"), where(ff, c), "the tree removed is not the visited one guarded by its own mother name")
+            continue
+        # bookkeeping: the pending list loses one entry per removal and was built with count-1 entries per name
+        book = [x for x in pf.calls_in(lp) if isinstance(x.func, ast.Attribute) and x.func.attr == "remove" and txt(x.func.value) == lst]
+        if not book or stmt_of(ff, book[0]) not in [s for s in pf.iter_stmts(lp.body)]:
+            ctx.violation("C01.6", ckey(ff, lp, "bookkeeping"), where(ff, lp), "a removed name is not taken off the pending list: every block of a repeated mother is removed")
+        else:
+            ctx.holds("C01.6", ckey(ff, lp, "bookkeeping"), where(ff, lp), "one pending entry consumed per removal", 1)
+        ext = [x for x in pf.calls_in(ff.node) if isinstance(x.func, ast.Attribute) and x.func.attr in ("extend", "append") and txt(x.func.value) == lst]
+        okc = False
+        for x in ext:
+            a = flow.expand(x.args[0]) if x.args else None
+            if isinstance(a, ast.BinOp) and isinstance(a.op, ast.Mult):
+                lst_side, n_side = (a.left, a.right) if isinstance(a.left, ast.List) else (a.right, a.left)
+                if isinstance(lst_side, ast.List) and len(lst_side.elts) == 1 and isinstance(n_side, ast.BinOp) and isinstance(n_side.op, ast.Sub) \
+                        and isinstance(n_side.right, ast.Constant) and n_side.right.value == 1 and ".count(" in txt(n_side.left):
+                    okc = True
+        if okc:
+            ctx.holds("C01.6", ckey(ff, None, "count-1"), where(ff, ff.node), "count-1 removals are scheduled per repeated mother", 2)
+        else:
+            ctx.violation("C01.6", ckey(ff, None, "count-1"), where(ff, ff.node), "the number of scheduled removals per repeated mother is not count-1")
+
+
+CALLBACKS = {"DecayModelAliasReplacement": {"model"}, "DecayModelParamValueReplacement": {"model_options"},
+             "ChargeConjugateReplacement": {"particle"}}
+
+
+def c01_7(ctx, ss):
+    gf = grammar_facts(ss, G)
+    names = gf.tree_names
+    mf = pf.module_facts(ss, DEC)
+    n = 0
+    for cname, need in CALLBACKS.items():
+        if cname not in mf.classes:
+            raise AnchorMissing(f"class {cname} not found")
+        cf = mf.classes[cname]
+        pub = {m for m in cf.methods if not m.startswith("_")}
+        for m in sorted(need):
+            n += 1
+            k = f"{DEC}:{cname}.{m}"
+            if m not in pub:
+                ctx.violation("C01.7", k, where(None, cf.node, short=DEC) if False else f"src/decaylanguage/{DEC}:{cf.node.lineno}",
+                              f"{cname} has no callback `{m}`: the replacement silently becomes a no-op")
+            elif m not in names:
+                ctx.violation("C01.7", k, f"src/decaylanguage/{DEC}:{cf.methods[m].node.lineno}", f"callback {cname}.{m} names no rule of {G}: it is never invoked")
+            else:
+                ctx.holds("C01.7", k, f"src/decaylanguage/{DEC}:{cf.methods[m].node.lineno}", f"callback `{m}` names a grammar rule", 1)
+        for m in sorted(pub - need):
+            if m not in names and m not in ("transform", "visit", "visit_topdown"):
+                ctx.violation("C01.7", f"{DEC}:{cname}.{m}", f"src/decaylanguage/{DEC}:{cf.methods[m].node.lineno}",
+                              f"callback {cname}.{m} names no rule of {G} (dead callback after a rule rename?)")
+    ctx.floor("C01.7", "callbacks", n, 3)
+
+
+def c01_8(ctx, ss):
+    """Observation points: the public wrappers report every table / every line."""
+    from .common import comp_over_all
+    ff, flow = fn(ss, DEC, "DecFileParser.list_decay_mother_names")
+    r = returns(ff)
+    ok, why = (False, "no single return")
+    if len(r) == 1:
+        ok, why = comp_over_all(flow, r[0].value, lambda it: txt(it) == "self._parsed_decays",
+                                lambda elt, b: isinstance(elt, ast.Call) and txt(elt.func) == "get_decay_mother_name"
+                                and len(elt.args) == 1 and isinstance(elt.args[0], ast.Name) and elt.args[0].id == b)
+    (ctx.holds if ok else ctx.violation)("C01.8", ckey(ff, None, "all-mothers"), where(ff, ff.node),
+                                         "list_decay_mother_names maps get_decay_mother_name over all of self._parsed_decays" if ok
+                                         else f"list_decay_mother_names does not report every table in order: {why}")
+    ff, flow = fn(ss, DEC, "DecFileParser.number_of_decays")
+    r = returns(ff)
+    ok = len(r) == 1 and r[0].value is not None and flow.text(r[0].value) == "len(self._parsed_decays)"
+    (ctx.holds if ok else ctx.violation)("C01.8", ckey(ff, None, "count"), where(ff, ff.node),
+                                         "number_of_decays = len(self._parsed_decays)" if ok else
+                                         f"number_of_decays returns `{flow.text(r[0].value) if r and r[0].value is not None else None}`")
+    ff, flow = fn(ss, DEC, "DecFileParser.list_decay_modes")
+    r = returns(ff)
+    ok, why = (False, "no single return")
+    if len(r) == 1:
+        def iter_ok(it):
+            return isinstance(it, ast.Call) and txt(it.func) == "self._find_decay_modes" and len(it.args) == 1 and \
+                all(is_identity(a, "mother") or "PDG2EvtGenNameMap[mother]" == txt(a) for a in phi_alts(it.args[0]))
+        ok, why = comp_over_all(flow, r[0].value, iter_ok,
+                                lambda elt, b: isinstance(elt, ast.Call) and txt(elt.func) == "get_final_state_particle_names"
+                                and len(elt.args) == 1 and isinstance(elt.args[0], ast.Name) and elt.args[0].id == b)
+    (ctx.holds if ok else ctx.violation)("C01.8", ckey(ff, None, "all-modes"), where(ff, ff.node),
+                                         "list_decay_modes maps the daughters accessor over every decay line of the mother" if ok
+                                         else f"list_decay_modes does not report every decay line in order: {why}")
+    ctx.count("functions", 3)
